@@ -263,6 +263,41 @@ Proof.
         assert (ps <= max1 ps) by (unfold max1; lia). assert (0 <= ps) by lia. nia.
 Qed.
 
+
+(* required_span_size() is a value of index_type *)
+Lemma span_fits t m sp : valid t m -> span_impl t m = Ok sp -> sp <= imax t.
+Proof.
+  intros Hv E. pose proof (valid_exts_nonneg t m Hv) as Hnn. destruct (has_zero (exts m)) eqn:Hz.
+  - rewrite (span_empty t m Hv Hz) in E. injection E as <-. pose proof (imax_pos t). lia.
+  - 
+    clear - Hv E Hz Hnn. destruct m as [es|es|es ss|es ps|es ps]; cbn [exts] in *.
+    + destruct (span_left_right_is_product t es Hv) as [E' _]. rewrite E' in E. injection E as <-.
+      destruct Hv as [_ Hb]. pose proof (prodl_le_prod1 es Hnn). lia.
+    + destruct (span_left_right_is_product t es Hv) as [_ E']. rewrite E' in E. injection E as <-.
+      destruct Hv as [_ Hb]. pose proof (prodl_le_prod1 es Hnn). lia.
+    + pose proof (span_refines_lrs t (MStride es ss) Hv eq_refl) as E'. cbn [exts] in E'. rewrite Hz in E'. rewrite E' in E. injection E as <-.
+      destruct Hv as (Hl & He & Hs & Hord & Hb). unfold dims. cbn [exts spec_strides].
+      rewrite (max1_id_pos es) in Hb by (apply has_zero_false; auto). exact Hb.
+    + destruct (span_padded_l t es ps Hv) as (sp' & E' & _ & _ & H). rewrite E' in E. injection E as <-. destruct (H Hz) as [_ ->].
+      destruct Hv as [[_ Hb] Hp]. destruct es as [|e0 [|e1 es]]; cbn [lpad_exts].
+      * cbn. pose proof (imax_pos t). lia.
+      * pose proof (prodl_le_prod1 _ Hnn). lia.
+      * assert (H2 : (2 <= length (e0 :: e1 :: es))%nat) by (cbn; lia). destruct (Hp H2) as [Hps Hb2]. cbn [hd tl] in *.
+        inversion Hnn as [|? ? H0 Hnn']; subst. pose proof (prodl_le_prod1 _ Hnn'). pose proof (prodl_nonneg _ Hnn').
+        cbn [prodl] in *. assert (ps <= max1 ps) by (unfold max1; lia). assert (0 <= ps) by lia. nia.
+    + destruct (span_padded_r t es ps Hv) as (sp' & E' & _ & _ & H). rewrite E' in E. injection E as <-. destruct (H Hz) as [_ ->].
+      destruct Hv as [[_ Hb] Hp]. destruct es as [|e0 [|e1 es]]; cbn [rpad_exts].
+      * cbn. pose proof (imax_pos t). lia.
+      * pose proof (prodl_le_prod1 _ Hnn). lia.
+      * set (l := e0 :: e1 :: es) in *. assert (H2 : (2 <= length l)%nat) by (cbn; lia). destruct (Hp H2) as [Hps Hb2].
+        assert (Hnn' : Forall (fun e => 0 <= e) (removelast l)) by (apply Forall_removelast; auto).
+        assert (Hne : l <> []) by discriminate.
+        assert (Hlast : 0 <= last l 0).
+        { rewrite (app_removelast_last 0 Hne) in Hnn. apply Forall_app in Hnn as [_ Hp2]. apply Forall_inv in Hp2. exact Hp2. }
+        rewrite prodl_app. cbn [prodl]. pose proof (prodl_le_prod1 _ Hnn'). pose proof (prodl_nonneg _ Hnn').
+        assert (ps <= max1 ps) by (unfold max1; lia). assert (0 <= ps) by lia. nia.
+Qed.
+
 (* empty() is true exactly when some extent is 0; never for rank 0 *)
 Theorem empty_iff_thm es : empty_impl es = true <-> (exists e, In e es /\ e = 0).
 Proof.
